@@ -353,4 +353,71 @@ func runC12(c *Ctx, r *Report) {
 		})
 	}
 	r.Floor("R-C12.4", "entry ToPlain converters", nTP, 1)
+	// the reference entry's SetClock always leaves a non-nil clock (GetClock() then never wraps a nil pointer)
+	sc := p.Func("entry", "Entry", "SetClock")
+	clockField := p.Field("entry", "Entry", "Clock")
+	scf := &Flow{P: p, Fn: sc, Entry: Facts{}}
+	scf.Node = func(n ast.Node, f Facts) {
+		walkNoLit(n, func(nd ast.Node) bool {
+			if as, ok := nd.(*ast.AssignStmt); ok {
+				for i, l := range as.Lhs {
+					if v, _ := p.FieldSel(sc, l); v == clockField && i < len(as.Rhs) {
+						if definitelyNonNil(ast.Unparen(as.Rhs[i])) {
+							f["clockNonNil"] = true
+						} else {
+							delete(f, "clockNonNil")
+						}
+					}
+				}
+			}
+			return true
+		})
+	}
+	scf.Run()
+	scf.Exits(func(_ *cfgBlk, ret *ast.ReturnStmt, at Facts) {
+		pos := sc.Body.Rbrace
+		if ret != nil {
+			pos = ret.Pos()
+		}
+		r.Check(at["clockNonNil"], "R-C12.4", r.Key("R-C12.4", sc, "exit", ""), pos,
+			"SetClock leaves a freshly allocated clock in the entry on every path",
+			"SetClock can return with the entry's clock nil (or not freshly set): a block whose clock decodes to an 'undefined' value yields an entry whose GetClock() is a nil pointer inside a non-nil interface, and GetTime()/Compare on it panic")
+	})
+
+	// R-C12.5: a failed decode hands back no entry
+	r.Doc("R-C12.5", "in the decode closure a return with a non-nil error carries a nil value (callers filter failed blocks by the value)")
+	nerr := 0
+	for _, fn := range fns {
+		if fn.Type.Results == nil || len(fn.Type.Results.List) == 0 {
+			continue
+		}
+		// (T, error) with T pointer or interface
+		var rtypes []types.Type
+		for _, f := range fn.Type.Results.List {
+			k := len(f.Names)
+			if k == 0 {
+				k = 1
+			}
+			for j := 0; j < k; j++ {
+				rtypes = append(rtypes, fn.Pkg.TypesInfo.TypeOf(f.Type))
+			}
+		}
+		if len(rtypes) != 2 || !isErrorType(rtypes[1]) {
+			continue
+		}
+		if _, isPtr := rtypes[0].Underlying().(*types.Pointer); !isPtr && !types.IsInterface(rtypes[0]) {
+			continue
+		}
+		walkNoLit(fn.Body, func(n ast.Node) bool {
+			ret, ok := n.(*ast.ReturnStmt)
+			if !ok || len(ret.Results) != 2 || isNilIdent(ret.Results[1]) {
+				return true
+			}
+			nerr++
+			r.Check(isNilIdent(ret.Results[0]), "R-C12.5", r.Key("R-C12.5", fn, "error-return", ""), ret.Pos(),
+				"error return carries no value", "a decode function returns a (partially filled) value together with an error: callers that drop the error and filter on the value (the fetch worker) then use an entry without clock/identity and crash")
+			return true
+		})
+	}
+	r.Floor("R-C12.5", "error returns of value-returning decode functions", nerr, 8)
 }
